@@ -284,4 +284,205 @@ Section G.
         rewrite (g_mat_apply_eq bits H0 HB1 m t0' t1' (words_of_wordsP m Wm) C0 C1').
         destruct (apply bits m t0' t1') as [[c' d']| | | |]; reflexivity.
   Qed.
+
+  (* ---------------- gcd_extended ---------------- *)
+  Definition xs_tuple (s : xstate) := (xa s, xb s, xs0 s, xs1 s, xt0 s, xt1 s, xeven s).
+  Definition canonX (s : xstate) : Prop :=
+    canon bits (xa s) /\ canon bits (xb s) /\ canon bits (xs0 s) /\ canon bits (xs1 s) /\
+    canon bits (xt0 s) /\ canon bits (xt1 s).
+  Definition gcdx_step (s : xstate) (m : mat) : outcome xstate :=
+    if GcdMatrix.mat_eqb m IDENTITY then
+      do q <- udiv (xa s) (xb s) ;
+      do ab <- euclid_upd bits q (xa s) (xb s) ;
+      do ss <- euclid_upd bits q (xs0 s) (xs1 s) ;
+      do tp <- euclid_upd bits q (xt0 s) (xt1 s) ;
+      Val (XS (fst ab) (snd ab) (fst ss) (snd ss) (fst tp) (snd tp) (negb (xeven s)))
+    else
+      do ab <- apply bits m (xa s) (xb s) ;
+      do ss <- apply bits m (xs0 s) (xs1 s) ;
+      do tp <- apply bits m (xt0 s) (xt1 s) ;
+      Val (XS (fst ab) (snd ab) (fst ss) (snd ss) (fst tp) (snd tp) (xorb (xeven s) (negb (m4 m)))).
+
+  Lemma gcdx_loop_S fuel s : gcdx_loop (S fuel) bits s =
+    if is_zero bits (xb s) then Val s else
+    if Add.ult (xa s) (xb s) then DebugPanic else
+    do m <- from bits (xa s) (xb s) ; do s' <- gcdx_step s m ; gcdx_loop fuel bits s'.
+  Proof.
+    cbn [gcdx_loop]. destruct (is_zero bits (xb s)); [reflexivity|].
+    destruct (Add.ult (xa s) (xb s)); [reflexivity|].
+    destruct (from bits (xa s) (xb s)) as [m| | | |]; try reflexivity. cbn [obind]. unfold gcdx_step.
+    destruct (GcdMatrix.mat_eqb m IDENTITY).
+    - destruct (udiv (xa s) (xb s)); try reflexivity. cbn [obind].
+      destruct (euclid_upd bits _ (xa s) (xb s)); try reflexivity. cbn [obind].
+      destruct (euclid_upd bits _ (xs0 s) (xs1 s)); try reflexivity. cbn [obind].
+      destruct (euclid_upd bits _ (xt0 s) (xt1 s)); reflexivity.
+    - destruct (apply bits m (xa s) (xb s)); try reflexivity. cbn [obind].
+      destruct (apply bits m (xs0 s) (xs1 s)); try reflexivity. cbn [obind].
+      destruct (apply bits m (xt0 s) (xt1 s)); reflexivity.
+  Qed.
+
+  Lemma gcdx_step_canon s m : canonX s -> is_zero bits (xb s) = false -> PfGcdUint.wordsP m ->
+    match gcdx_step s m with Val s' => canonX s' | _ => True end.
+  Proof.
+    intros (Ca & Cb & S0 & S1 & T0 & T1) Ez Wm. unfold gcdx_step. destruct (GcdMatrix.mat_eqb m IDENTITY).
+    - pose proof (udiv_canon _ _ Ca Cb Ez) as Cq. destruct (udiv (xa s) (xb s)) as [q| | | |]; try exact I. cbn [obind].
+      pose proof (upd_canon q _ _ Cq Ca Cb) as U1. destruct (euclid_upd bits q (xa s) (xb s)) as [ab| | | |]; try exact I. cbn [obind].
+      pose proof (upd_canon q _ _ Cq S0 S1) as U2. destruct (euclid_upd bits q (xs0 s) (xs1 s)) as [ss| | | |]; try exact I. cbn [obind].
+      pose proof (upd_canon q _ _ Cq T0 T1) as U3. destruct (euclid_upd bits q (xt0 s) (xt1 s)) as [tp| | | |]; try exact I.
+      unfold canonX. cbn. tauto.
+    - pose proof (apply_canon m _ _ Wm Ca Cb) as U1. destruct (apply bits m (xa s) (xb s)) as [[c d]| | | |]; try exact I. cbn [obind].
+      pose proof (apply_canon m _ _ Wm S0 S1) as U2. destruct (apply bits m (xs0 s) (xs1 s)) as [[c1 d1]| | | |]; try exact I. cbn [obind].
+      pose proof (apply_canon m _ _ Wm T0 T1) as U3. destruct (apply bits m (xt0 s) (xt1 s)) as [[c2 d2]| | | |]; try exact I.
+      unfold canonX. cbn. tauto.
+  Qed.
+
+  Lemma wr_gcdx_loop cond body :
+    (forall s, cond (xs_tuple s) = Val (negb (is_zero bits (xb s)))) ->
+    (forall s, canonX s -> is_zero bits (xb s) = false -> body (xs_tuple s) =
+       if Add.ult (xa s) (xb s) then DebugPanic else
+       do m <- from bits (xa s) (xb s) ; omap xs_tuple (gcdx_step s m)) ->
+    forall fuel s, canonX s ->
+    while_rounds fuel (xs_tuple s) cond body = omap xs_tuple (gcdx_loop fuel bits s) /\
+    (forall s', gcdx_loop fuel bits s = Val s' -> canonX s').
+  Proof.
+    intros Hc Hb. induction fuel as [|fuel IH]; intros s Cs.
+    - cbn [while_rounds gcdx_loop]. rewrite Hc. cbn [obind].
+      destruct (is_zero bits (xb s)); cbn [negb]; split; try reflexivity; try discriminate. intros s' [= <-]. exact Cs.
+    - rewrite gcdx_loop_S. cbn [while_rounds]. rewrite Hc. cbn [obind].
+      destruct (is_zero bits (xb s)) eqn:Ez; cbn [negb].
+      { split; [reflexivity|]. intros s' [= <-]. exact Cs. }
+      rewrite (Hb s Cs Ez). destruct (Add.ult (xa s) (xb s)) eqn:Eu; [split; [reflexivity|discriminate]|].
+      pose proof Cs as (Ca & Cb & _).
+      destruct (PfGcdMatrix.LehmerStepOK_holds bits _ _ H0 Ca Cb (ult_false_le _ _ Ca Cb Eu)) as (m & Em & Wm & _).
+      rewrite Em. cbn [obind].
+      pose proof (gcdx_step_canon s m Cs Ez Wm) as Cs'.
+      destruct (gcdx_step s m) as [s1| | | |]; cbn [omap obind]; try (split; [reflexivity|discriminate]).
+      apply IH. exact Cs'.
+  Qed.
+
+  Theorem g_alg_gcd_extended_eq a b : canon bits a -> canon bits b ->
+    g_alg_gcd_extended bits (nlimbs bits) a b = gcd_extended bits a b.
+  Proof.
+    intros Ca Cb. unfold g_alg_gcd_extended, gcd_extended.
+    destruct (Z.eqb_spec bits 0) as [E0|N0]; [reflexivity|]. cbv zeta.
+    change (match g_cmp bits (nlimbs bits) a b with Lt => true | _ => false end) with (Add.ult a b).
+    rewrite PfModelsAgree.agree_udiv_uone, <- PfModelsAgree.agree_gcdmatrix_uONE.
+    destruct (PfGcdUint.uONE_spec bits ltac:(lia)) as [C1 _].
+    destruct (canon_uZERO bits H0) as [Cz _].
+    assert (Hmain : forall x y sw, canon bits x -> canon bits y ->
+      (do t_20 <- while_rounds (Z.to_nat (2 * bits + 2)) (x, y, uONE bits, uZERO bits, uZERO bits, uONE bits, true)
+         (fun t_21 => let '(a, b, s0, s1, t0, t1, even) := t_21 in Val (negb (list_eqb Z.eqb b (uZERO bits))))
+         (fun t_21 => let '(a, b, s0, s1, t0, t1, even) := t_21 in
+            if negb (match g_cmp bits (nlimbs bits) a b with Lt => false | _ => true end) then DebugPanic else
+            do t_2 <- g_mat_from bits (nlimbs bits) a b ; let m := t_2 in
+            do t_19 <- (if Prim.mat_eqb m (1, 0, 0, 1, true) then
+               (do t_3 <- g_wrapping_div bits (nlimbs bits) a b ; let q := t_3 in
+                do t_4 <- g_wrapping_mul bits (nlimbs bits) q b ; do t_5 <- g_wrapping_sub bits (nlimbs bits) a t_4 ; let a := t_5 in
+                let '(a, b) := (b, a) in
+                do t_6 <- g_wrapping_mul bits (nlimbs bits) q s1 ; do t_7 <- g_wrapping_sub bits (nlimbs bits) s0 t_6 ; let s0 := t_7 in
+                let '(s0, s1) := (s1, s0) in
+                do t_8 <- g_wrapping_mul bits (nlimbs bits) q t1 ; do t_9 <- g_wrapping_sub bits (nlimbs bits) t0 t_8 ; let t0 := t_9 in
+                let '(t0, t1) := (t1, t0) in
+                let even := negb even in
+                Val (a, b, s0, s1, t0, t1, even))
+             else
+               (do t_10 <- g_mat_apply bits (nlimbs bits) m a b ; let '(t_11, t_12) := t_10 in let a := t_11 in let b := t_12 in
+                do t_13 <- g_mat_apply bits (nlimbs bits) m s0 s1 ; let '(t_14, t_15) := t_13 in let s0 := t_14 in let s1 := t_15 in
+                do t_16 <- g_mat_apply bits (nlimbs bits) m t0 t1 ; let '(t_17, t_18) := t_16 in let t0 := t_17 in let t1 := t_18 in
+                let even := xorb even (negb (mat_4 m)) in
+                Val (a, b, s0, s1, t0, t1, even))) ;
+            let '(a, b, s0, s1, t0, t1, even) := t_19 in
+            Val (a, b, s0, s1, t0, t1, even)) ;
+       let '(a, b, s0, s1, t0, t1, even) := t_20 in
+       do t_24 <- (if even then (do t_22 <- g_wrapping_sub bits (nlimbs bits) (uZERO bits) t0 ; let t0 := t_22 in Val (t0, s0))
+                   else (do t_23 <- g_wrapping_sub bits (nlimbs bits) (uZERO bits) s0 ; let s0 := t_23 in Val (t0, s0))) ;
+       let '(t0, s0) := t_24 in
+       do t_25 <- (if (sw : bool) then (let '(s0, t0) := (t0, s0) in let even := negb even in Val (s0, t0, even))
+                   else Val (s0, t0, even)) ;
+       let '(s0, t0, even) := t_25 in
+       Val (a, s0, t0, even))
+      = (do s <- gcdx_loop (gcd_fuel bits) bits (XS x y (uONE bits) (uZERO bits) (uZERO bits) (uONE bits) true) ;
+         let even := xeven s in
+         let t0 := if even then usub bits (uZERO bits) (xt0 s) else xt0 s in
+         let s0 := if even then xs0 s else usub bits (uZERO bits) (xs0 s) in
+         if sw then Val (xa s, t0, s0, negb even) else Val (xa s, s0, t0, even))).
+    { intros x y sw Cx Cy.
+      set (st := XS x y (uONE bits) (uZERO bits) (uZERO bits) (uONE bits) true).
+      assert (Cst : canonX st) by (unfold canonX, st; cbn; auto 10).
+      change (x, y, uONE bits, uZERO bits, uZERO bits, uONE bits, true) with (xs_tuple st).
+      change (Z.to_nat (2 * bits + 2)) with (gcd_fuel bits).
+      match goal with |- context [while_rounds _ (xs_tuple st) ?c ?bd] => pose proof (wr_gcdx_loop c bd) as HW end.
+      destruct HW with (fuel := gcd_fuel bits) (s := st) as [EL CL]; [| |exact Cst|].
+      3:{ rewrite EL. clear EL.
+          destruct (gcdx_loop (gcd_fuel bits) bits st) as [s| | | |] eqn:E; try reflexivity. cbn [omap obind].
+          specialize (CL s eq_refl). destruct CL as (_ & _ & S0 & _ & T0 & _). unfold xs_tuple. cbv zeta.
+          destruct Cz as (Lz & _). pose proof S0 as (Ls & _). pose proof T0 as (Lt & _).
+          destruct (xeven s).
+          - rewrite (g_wrapping_sub_eq bits (uZERO bits) (xt0 s) H0 HB' Lz Lt). cbn [obind].
+            destruct sw; reflexivity.
+          - rewrite (g_wrapping_sub_eq bits (uZERO bits) (xs0 s) H0 HB' Lz Ls). cbn [obind].
+            destruct sw; reflexivity. }
+      - intros [a' b' s0' s1' t0' t1' e']. reflexivity.
+      - intros [a' b' s0' s1' t0' t1' e'] (Ca' & Cb' & S0 & S1 & T0 & T1) Ez. cbn [xa xb xs0 xs1 xt0 xt1 xeven] in *.
+        unfold xs_tuple. cbn [xa xb xs0 xs1 xt0 xt1 xeven].
+        apply gen_from_eq; try assumption. intros m Wm. cbv zeta. rewrite mat_eqb_tuple. unfold gcdx_step. cbn [xa xb xs0 xs1 xt0 xt1 xeven].
+        destruct (GcdMatrix.mat_eqb m IDENTITY).
+        + rewrite g_udiv. pose proof (udiv_canon _ _ Ca' Cb' Ez) as Cq.
+          destruct (udiv a' b') as [q| | | |]; try reflexivity. cbn [obind].
+          rewrite (gen_upd_eq q a' b') by assumption.
+          destruct (euclid_upd bits q a' b') as [ab| | | |] eqn:E1; try reflexivity. cbn [obind].
+          rewrite (gen_upd_eq q s0' s1') by assumption.
+          destruct (euclid_upd bits q s0' s1') as [ss| | | |] eqn:E2; try reflexivity. cbn [obind].
+          rewrite (gen_upd_eq q t0' t1') by assumption.
+          destruct (euclid_upd bits q t0' t1') as [tp| | | |] eqn:E3; try reflexivity. cbn [obind omap].
+          rewrite (upd_fst _ _ _ _ E1), (upd_fst _ _ _ _ E2), (upd_fst _ _ _ _ E3). reflexivity.
+        + rewrite (g_mat_apply_eq bits H0 HB1 m a' b' (words_of_wordsP m Wm) Ca' Cb').
+          destruct (apply bits m a' b') as [[c d]| | | |]; try reflexivity. cbn [obind].
+          rewrite (g_mat_apply_eq bits H0 HB1 m s0' s1' (words_of_wordsP m Wm) S0 S1).
+          destruct (apply bits m s0' s1') as [[c1 d1]| | | |]; try reflexivity. cbn [obind].
+          rewrite (g_mat_apply_eq bits H0 HB1 m t0' t1' (words_of_wordsP m Wm) T0 T1).
+          destruct (apply bits m t0' t1') as [[c2 d2]| | | |]; reflexivity. }
+    destruct (Add.ult a b); [exact (Hmain b a true Cb Ca) | exact (Hmain a b false Ca Cb)].
+  Qed.
+
+  (* ---------------- src/gcd.rs and Uint::inv_mod: the Uint-level wrappers ---------------- *)
+  Lemma bind_val_id {A} (o : outcome A) : (do x <- o ; Val x) = o.
+  Proof. destruct o; reflexivity. Qed.
+
+  Theorem g_u_wrappers_eq a b : canon bits a -> canon bits b ->
+    g_u_gcd bits (nlimbs bits) a b = uint_gcd bits a b /\
+    g_u_gcd_extended bits (nlimbs bits) a b = uint_gcd_extended bits a b /\
+    g_u_inv_mod bits (nlimbs bits) a b = inv_mod bits a b /\
+    g_u_lcm bits (nlimbs bits) a b = lcm bits a b.
+  Proof.
+    intros Ca Cb.
+    assert (Eg : g_u_gcd bits (nlimbs bits) a b = gcd bits a b).
+    { unfold g_u_gcd. rewrite bind_val_id. apply g_alg_gcd_eq; assumption. }
+    split; [exact Eg|]. split; [|split].
+    - unfold g_u_gcd_extended, uint_gcd_extended. rewrite bind_val_id. apply g_alg_gcd_extended_eq; assumption.
+    - unfold g_u_inv_mod. rewrite bind_val_id. apply g_alg_inv_mod_eq; assumption.
+    - unfold g_u_lcm, lcm. rewrite Eg.
+      rewrite (PfGcd.gcd_spec PfC12Closed.DivKernelOK_holds PfGcdMatrix.LehmerStepOK_holds bits a b H0 Ca Cb).
+      cbn [obind].
+      pose proof (canon_range bits a H0 Ca) as Ra. pose proof (canon_range bits b H0 Cb) as Rb.
+      assert (Hg : 0 <= Z.gcd (eval a) (eval b) < 2 ^ bits).
+      { split; [apply Z.gcd_nonneg|].
+        destruct (Z.eq_dec (eval a) 0) as [Ea|Na].
+        - rewrite Ea, Z.gcd_0_l, Z.abs_eq by lia. lia.
+        - assert (Z.gcd (eval a) (eval b) <= eval a); [|lia].
+          apply Z.divide_pos_le; [lia | apply Z.gcd_divide_l]. }
+      destruct (PfGcdUint.canon_uint_of_val bits _ H0 Hg) as [Cg _].
+      set (g := uint_of bits (Z.gcd (eval a) (eval b))) in *.
+      rewrite g_checked_div_eq. unfold UDiv.checked_div, UDiv.op_div_.
+      rewrite <- PfModelsAgree.agree_gcdmatrix_is_zero, <- PfModelsAgree.agree_gcdmatrix_udiv.
+      destruct (is_zero bits g) eqn:Ez; cbn [obind].
+      + destruct (canon_uZERO bits H0) as [(Lz & Wz & _) _]. destruct Ca as (La & Wa & _).
+        rewrite (g_checked_mul_eq bits a (uZERO bits) H0 HB' La Lz Wa Wz), <- PfModelsAgree.agree_gcdmatrix_uchecked_mul.
+        reflexivity.
+      + pose proof (udiv_canon b g Cb Cg Ez) as Cq.
+        destruct (udiv b g) as [q| | | |]; try reflexivity. cbn [obind].
+        destruct Cq as (Lq & Wq & _). destruct Ca as (La & Wa & _).
+        rewrite (g_checked_mul_eq bits a q H0 HB' La Lq Wa Wq), <- PfModelsAgree.agree_gcdmatrix_uchecked_mul.
+        reflexivity.
+  Qed.
 End G.
